@@ -746,7 +746,7 @@ class Array(Tuple):
             return format_alias_sql(sql, self.alias, ctx)
 
         param = ctx.parameterizer.create_param(self.original_value)
-        return param.get_sql(ctx)
+        return format_alias_sql(param.get_sql(ctx), self.alias, ctx)
 
 
 class Bracket(Tuple):
